@@ -409,3 +409,18 @@ pub unsafe extern "C" fn getrandom(buf: *mut c_void, len: usize, flags: libc::c_
     let f = real_fn!(S, c"getrandom", unsafe extern "C" fn(*mut c_void, usize, libc::c_uint) -> isize);
     unsafe { f(buf, len, flags) }
 }
+
+/// `syscall(2)`: getrandom 0.2 (rand 0.8, used for ULIDs) asks for entropy
+/// through the raw system call. The C prototype is variadic; on x86-64 SysV a
+/// fixed seven-argument definition reads exactly the same registers.
+#[cfg(target_arch = "x86_64")]
+#[unsafe(no_mangle)]
+pub unsafe extern "C" fn syscall(num: libc::c_long, a1: libc::c_long, a2: libc::c_long, a3: libc::c_long, a4: libc::c_long, a5: libc::c_long, a6: libc::c_long) -> libc::c_long {
+    if num == libc::SYS_getrandom && subject_call() && a1 != 0 {
+        let s = unsafe { std::slice::from_raw_parts_mut(a1 as *mut u8, a2 as usize) };
+        with_hooks(|h| h.random(s));
+        return a2;
+    }
+    let f = real_fn!(S, c"syscall", unsafe extern "C" fn(libc::c_long, libc::c_long, libc::c_long, libc::c_long, libc::c_long, libc::c_long, libc::c_long) -> libc::c_long);
+    unsafe { f(num, a1, a2, a3, a4, a5, a6) }
+}
